@@ -362,8 +362,8 @@ def configs(quick):
             out.append({"server": server, "ending": ending, "tracked": 1, "untracked": 0, "other": True, "first_call_oneway": True, "p": 1, "r": 1 if quick else 2, "horizon": 4000})
     # a tracked resource whose close() raises (closed once all the same, the other resources too)
     for server in ("multiplex", "thread"):
-        for ending in ("release", "reset@40"):
-            out.append({"server": server, "ending": ending, "tracked": 2, "untracked": 0, "other": True, "raising_resource": True, "p": 0, "r": 0, "horizon": 4000})
+        for ending in (("release", "reset@40") if quick else ("release", "reset@40", "abrupt@40", "malformed", "security", "timeout-partial")):
+            out.append({"server": server, "ending": ending, "tracked": 2, "untracked": 0, "other": True, "raising_resource": True, "p": 0 if quick else 1, "r": 0, "horizon": 4000})
     # the disconnect hook installed on the daemon instance
     for server in ("multiplex", "thread"):
         for ending in ("release", "reset@40"):
